@@ -31,6 +31,9 @@ RULE = ("hist: a random history (4-33 ops) of deliveries, raw HTTP requests (7 p
         "A further stream makes message content unavailable — the content file vanishes (file store), or another client's removal "
         "completes between the manager's look-up and its open (a wrapper around the Store the manager sees) — and asks for the message "
         "through every endpoint: any well-formed answer is accepted there, a dropped connection (handler panic) is not. "
+        "asm14: the assembled server (config.Process from the environment, server.FullAssembly + Services.Start in a child process, "
+        "INBUCKET_WEB_BASEPATH spelled '', '/p', 'p', 'p/', '/a/b/', 'a/b'): deliveries over the real SMTP port, then every method of the Go "
+        "client and web-UI fetches against the real http listener under the prefixed base path; model = serve with the normalised base path. "
         "distinct = distinct input line; non-trivial = the history has at least one delivery and one request or client call "
         "that is answered 200.")
 TRUSTED = [
@@ -62,11 +65,12 @@ KNOWN_MUST_REPRODUCE = True
 
 
 def _ops(ins):
-    return [] if ins[3] == "-" else ins[3].split(",")
+    # the history is the last input field (hist: store naming base ops; asm14: store basepath ops)
+    return [] if ins[-1] == "-" else ins[-1].split(",")
 
 
 def nontrivial(kind, ins, outs):
-    if kind != "hist":
+    if kind not in ("hist", "asm14"):
         return False
     ops = _ops(ins)
     has_add = any(o.startswith("a:") for o in ops)
@@ -118,14 +122,15 @@ def match_known(case_line, reason):
 
 def shrink_candidates(inp):
     parts = inp.split(" ")
-    ops = [] if parts[4] == "-" else parts[4].split(",")
-    # drop one op at a time (later ops first), then halves
+    head, hist = parts[:-1], parts[-1]
+    ops = [] if hist == "-" else hist.split(",")
+    # halves, then drop one op at a time (later ops first)
     n = len(ops)
     if n > 4:
-        yield " ".join(parts[:4] + [",".join(ops[: n // 2])])
-        yield " ".join(parts[:4] + [",".join(ops[n // 2:])])
+        yield " ".join(head + [",".join(ops[: n // 2])])
+        yield " ".join(head + [",".join(ops[n // 2:])])
     for i in reversed(range(n)):
         rest = ops[:i] + ops[i + 1:]
-        yield " ".join(parts[:4] + [",".join(rest) if rest else "-"])
-    if parts[3] != "-":
+        yield " ".join(head + [",".join(rest) if rest else "-"])
+    if parts[0] == "hist" and parts[3] != "-":
         yield " ".join(parts[:3] + ["-"] + parts[4:])
